@@ -411,6 +411,72 @@ def r11_6_rewind_discards(ctx):
     ctx.check(invalidates_decl_cache, "R11.6", "Router._cleaning_context:declaration-caches", "the router rewinds the slot id counter after every build but keeps the method subroutines' cached declarations (and the slots they own): a second compile_program on the same router issues ids that collide with the cached ones, so the id-sorted slot order - and the emitted slot numbers - differ from the first compile", f.where, fact={"cleaned": sorted(touched)[:8]})
 
 
+def r11_6b_rewind_to_saved_value(ctx):
+    ctx.rule("R11.6", "ids stay unique among live objects: every site that rewinds the slot id counter also discards what was created since the saved value (otherwise later slots reuse ids of cached ones and the id-sorted order, hence the output, depends on history)")
+    n = 0
+    for f in ctx.model.iter_funcs():
+        if f.module.name.endswith("_test") or not f.module.name.startswith("pyteal"):
+            continue
+        for c in q.calls_named(f.node, "reset_slot_numbering", into_nested=True):
+            n += 1
+            arg = c.args[0] if c.args else next((k.value for k in c.keywords if k.arg == "start_index"), None)
+            src = q.rtext(f.node, arg) if arg is not None else None
+            ok = src is not None and src.endswith("nextSlotId")
+            ctx.check(ok, "R11.6", f"{f.qualname}:rewind-target", f"`{u(c)}` rewinds the counter to {src or 'its initial value'}; it may only go back to the value read from ScratchSlot.nextSlotId when the region began (anything else re-issues ids of slots that are still alive)", f"{f.module.rel}:{c.lineno}", fact={"target": src})
+    q.need(n >= 3, f"only {n} rewind sites found")
+
+
+ENTROPY_MODULES = {"random", "time", "uuid", "secrets", "datetime", "socket", "getpass", "platform", "threading", "multiprocessing"}
+ENTROPY_OK = {("pyteal.stack_frame", "os"): "working directory and path arithmetic for source-map file names only (C15); never reaches the TEAL text"}
+
+
+def r11_7_no_entropy(ctx):
+    ctx.rule("R11.7", "nothing that differs between processes reaches the output: the builtin hash() (salted per process for str / bytes) is called only inside __hash__ methods, object addresses (id()) are used only as set / dict keys, and no module of the package imports a source of time, randomness or host state (the one justified use of `os` is recorded)")
+    n = 0
+    for f in ctx.model.iter_funcs():
+        if f.module.name.endswith("_test") or not f.module.name.startswith(("pyteal", "feature_gates")):
+            continue
+        for c in walk_local(f.node):
+            if isinstance(c, ast.Call) and isinstance(c.func, ast.Name) and c.func.id == "hash":
+                n += 1
+                ctx.check(f.name == "__hash__", "R11.7", f"{f.qualname}:hash()", f"`{u(c)[:60]}` outside a __hash__ method: the hash of a str / bytes differs between processes (PYTHONHASHSEED), so anything derived from it - a label, an order - does too", f"{f.module.rel}:{c.lineno}", fact={})
+            if isinstance(c, ast.Call) and isinstance(c.func, ast.Name) and c.func.id == "id" and len(c.args) == 1:
+                n += 1
+                par = getattr(c, "parent", None)
+                # allowed: membership / set / dict keys / equality of identities; not allowed: ordering, formatting, arithmetic
+                bad = False
+                a = c
+                while par is not None and not isinstance(par, ast.stmt):
+                    if isinstance(par, ast.Call) and isinstance(par.func, ast.Name) and par.func.id in ("sorted", "min", "max", "str", "format", "repr", "hex"):
+                        bad = True
+                    if isinstance(par, (ast.JoinedStr, ast.FormattedValue)) or (isinstance(par, ast.BinOp) and not isinstance(par.op, (ast.BitOr, ast.BitAnd))):
+                        bad = True
+                    if isinstance(par, ast.Compare) and any(isinstance(o, (ast.Lt, ast.LtE, ast.Gt, ast.GtE)) for o in par.ops):
+                        bad = True
+                    if isinstance(par, ast.keyword) and par.arg == "key":
+                        bad = True
+                    a, par = par, getattr(par, "parent", None)
+                ctx.check(not bad, "R11.7", f"{f.qualname}:id()", f"`{u(c)}` is ordered, formatted or computed with: object addresses differ between processes", f"{f.module.rel}:{c.lineno}", fact={})
+    for m in ctx.model.modules.values():
+        if m.name.endswith("_test") or not m.name.startswith(("pyteal", "feature_gates")):
+            continue
+        for st in ast.walk(m.tree):
+            names = []
+            if isinstance(st, ast.Import):
+                names = [a.name.split(".")[0] for a in st.names]
+            elif isinstance(st, ast.ImportFrom) and st.module and st.level == 0:
+                names = [st.module.split(".")[0]]
+            for nm in names:
+                if nm in ENTROPY_MODULES or nm == "os":
+                    n += 1
+                    key = (m.name, nm)
+                    if key in ENTROPY_OK:
+                        ctx.ok("R11.7", f"{m.name}:import {nm}", {"reason": ENTROPY_OK[key]}, f"{m.rel}:{st.lineno}")
+                    else:
+                        ctx.bad("R11.7", f"{m.name}:import {nm}", f"`{m.name}` imports `{nm}`: time, randomness or host state must not be available to code that produces the program", f"{m.rel}:{st.lineno}")
+    ctx.require_min("R11.7", 5)
+
+
 def run(ctx):
     r11_1_inventory(ctx)
     r11_2_ids_by_order(ctx)
@@ -418,6 +484,8 @@ def run(ctx):
     r11_4_hash_order(ctx)
     r11_5_fresh_graph(ctx)
     r11_6_rewind_discards(ctx)
+    r11_6b_rewind_to_saved_value(ctx)
+    r11_7_no_entropy(ctx)
     from rules import c03 as _c03
 
     _c03.r03_1_skip_set(ctx)  # optimiser skip set recomputed per compilation (state on a reusable OptimizeOptions object)
